@@ -12,7 +12,8 @@
    the abstract [ByzSend]. *)
 From Coq Require Import List ZArith NArith Bool Arith Lia ZifyBool.
 From Goloop Require Import Model_ConsensusNode Proofs_ConsensusNode Proofs_ConsensusNode_C01
-  Model_ConsensusNet Proofs_ConsensusNet_Link Proofs_ConsensusNet_Sim Proofs_ConsensusNet_Run.
+  Model_ConsensusNet Proofs_ConsensusNet_Link Proofs_ConsensusNet_LockWAL Proofs_ConsensusNet_Sim
+  Proofs_ConsensusNet_Run.
 Import ListNotations.
 Open Scope Z_scope.
 
@@ -60,6 +61,8 @@ Section NetProof.
   Variable n : nat.
   Variable byz : nat -> bool.
   Variable blocks : list blk.
+  (* a part set has at least one part *)
+  Hypothesis blocks_ok : forall x, In x blocks -> (1 <= b_parts x)%N.
 
   Local Notation soup := (soup byz).
 
@@ -102,7 +105,7 @@ Section NetProof.
   Record NodeOK (net : netstate) (T : TM.state) (i : nat) (s : st) : Prop := {
     no_inv : Inv (Z.of_nat i) s;
     no_invd : InvD n s;
-    no_sim : Sim n byz i (env i net) T (nsoup net) s T
+    no_sim : Sim n byz blocks i (env i net) T (nsoup net) s T
   }.
 
   Definition byz_legal (net : netstate) : Prop := forall v, In v (byzsent net) -> legal_byz n byz v = true.
@@ -150,20 +153,32 @@ Section NetProof.
   (* ---------------- the relation of an engine that does not move ---------------- *)
 
   Lemma Sim_transfer i E T0 K0 s T E' T' (K0' : vote -> Prop) :
-    Sim n byz i E T0 K0 s T ->
+    Sim n byz blocks i E T0 K0 s T ->
     TM.reachable n byz T' -> TM.lock T' i = TM.lock T i -> TM.decided T' i = TM.decided T i ->
     incl (TM.soup T) (TM.soup T') ->
     (forall m, In m (TM.soup T') <-> exists v, known i E' s v /\ conv v = m) ->
     (forall v, known i E s v -> known i E' s v) ->
     (forall v, K0' v -> known i E' s v) ->
-    Sim n byz i E' T' K0' s T'.
+    Sim n byz blocks i E' T' K0' s T'.
   Proof.
-    intros H Rc Lk Dc Inc Sp Mono K0ok. destruct H. constructor; auto.
+    intros H Rc Lk Dc Inc Sp Mono K0ok. destruct H. constructor.
+    - exact Rc.
     - split; [auto|apply incl_refl].
+    - exact Sp.
     - rewrite Lk. auto.
     - intros lr b El. rewrite Lk in El. eapply TP.polka_mono; [exact Inc|]. eauto.
+    - auto.
     - intros e u He Hu. eauto.
     - rewrite Dc. auto.
+    - auto.
+    - auto.
+    - auto.
+    - exact K0ok.
+    - eapply Forall_rec_sub_mono; eauto.
+    - eapply Forall_rec_sub_mono; eauto.
+    - destruct sm_shape0 as [L [Sh LL]]. exists L. rewrite Lk. split; auto.
+      eapply lockwal_shape_mono; eauto.
+    - auto.
   Qed.
 
   Lemma NodeOK_transfer net T net' T' j s :
@@ -201,7 +216,7 @@ Section NetProof.
 
   Lemma NetInv_node_step net T i s s' :
     NetInv net T -> (i < n)%nat -> byz i = false -> nth_error (nodes net) i = Some s ->
-    P n byz i (env i net) T (nsoup net) s' ->
+    P n byz blocks i (env i net) T (nsoup net) s' ->
     exists T', NetInv (set_node i s' net) T' /\ forall j, j <> i -> TM.lock T' j = TM.lock T j.
   Proof.
     intros NI Li Bi Hs [HI HD [T' HS]].
@@ -243,52 +258,32 @@ Section NetProof.
         exact (NodeOK_transfer (ni_nodes NI Lj Bj Hj0) BL BL' Bj Hj0 Hj (sm_reach HS) F1 F2 Inc SM Sp).
   Qed.
 
-  (* an engine changes in a way the soup does not see (an event on a stopped
-     engine; any event of an engine in a Byzantine slot) *)
-  Lemma NetInv_idle net T i s s' :
-    NetInv net T -> nth_error (nodes net) i = Some s ->
-    (byz i = false ->
-       Inv (Z.of_nat i) s' /\ InvD n s' /\
-       forall E T0 K0, Sim n byz i E T0 K0 s T -> Sim n byz i E T0 K0 s' T) ->
-    (byz i = false -> forall v, sent_vote i s' v <-> sent_vote i s v) ->
-    NetInv (set_node i s' net) T.
+  (* an engine in a Byzantine slot: whatever it does is invisible (its votes
+     reach the others only as Byzantine sends) *)
+  Lemma NetInv_byz_node net T i s' :
+    NetInv net T -> (i < length (nodes net))%nat -> byz i = true -> NetInv (set_node i s' net) T.
   Proof.
-    intros NI Hs Ok Sv. pose proof (ni_len NI) as Ln. pose proof (ni_byz NI) as BL.
-    assert (Li' : (i < length (nodes net))%nat) by (apply nth_error_Some; congruence).
+    intros NI Li' Bi. pose proof (ni_len NI) as Ln. pose proof (ni_byz NI) as BL.
     set (net' := set_node i s' net).
     assert (SE : forall v, In v (soup net') <-> In v (soup net)).
     { intro v. subst net'. rewrite soup_set_node, in_soup; auto. split.
-      - intros [H|[[B H]|[k [sk [Ne [A1 [B1 C1]]]]]]]; auto.
-        + right. exists i, s. repeat split; auto. apply Sv; auto.
-        + right. exists k, sk. auto.
-      - intros [H|[k [sk [A1 [B1 C1]]]]]; auto. destruct (Nat.eq_dec k i) as [->|Ne].
-        + rewrite Hs in A1. inversion A1; subst. right. left. split; auto. apply Sv; auto.
-        + right. right. exists k, sk. auto. }
-    assert (Sp : forall j sj, (j < n)%nat -> byz j = false -> nth_error (nodes net) j = Some sj ->
-                 forall m, In m (TM.soup T) <-> exists v, In v (soup net') /\ conv v = m).
-    { intros j sj Lj Bj Hj m. rewrite (sm_soup (no_sim (ni_nodes NI Lj Bj Hj))).
-      split; intros [v [K C]]; exists v; split; auto.
-      - apply SE. apply (known_env v BL Bj Hj). exact K.
-      - apply (known_env v BL Bj Hj). apply SE. exact K. }
+      - intros [H|[[B H]|[k [sk [Ne [A1 [B1 C1]]]]]]]; auto; [congruence|].
+        right. exists k, sk. auto.
+      - intros [H|[k [sk [A1 [B1 C1]]]]]; auto. destruct (Nat.eq_dec k i) as [->|Ne]; [congruence|].
+        right. right. exists k, sk. auto. }
     constructor.
     - subst net'. cbn. rewrite set_nth_length. exact Ln.
     - exact BL.
     - apply (ni_reach NI).
-    - intros j sj Lj Bj Hj. destruct (Nat.eq_dec j i) as [->|Ne].
-      + subst net'. cbn in Hj. rewrite nth_error_set_nth_same in Hj; auto. inversion Hj; subst sj.
-        destruct (Ok Bj) as [HI [HD HS]]. pose proof (ni_nodes NI Lj Bj Hs) as [HI0 HD0 HS0].
-        assert (N' : nth_error (nodes (set_node i s' net)) i = Some s') by (cbn; apply nth_error_set_nth_same; auto).
-        constructor; auto.
-        eapply Sim_transfer; [apply HS; exact HS0| | | | | | |]; eauto using (ni_reach NI), incl_refl.
-        * intro m. rewrite (Sp i s Lj Bj Hs m). split; intros [v [K C]]; exists v; split; auto;
-            eapply (known_env v (net:=set_node i s' net) BL Bj N'); eauto.
-        * intros v K. apply (known_env v (net:=set_node i s' net) BL Bj N'). apply SE.
-          apply (known_env v BL Bj Hs). destruct K as [K|K]; [left; auto|right; apply Sv; auto].
-        * intros v K. apply (known_env v (net:=set_node i s' net) BL Bj N'). exact K.
-      + assert (Hj0 : nth_error (nodes net) j = Some sj).
-        { subst net'. cbn in Hj. rewrite nth_error_set_nth_other in Hj; auto. }
-        refine (NodeOK_transfer (ni_nodes NI Lj Bj Hj0) BL (BL : byz_legal net') Bj Hj0 Hj (ni_reach NI) eq_refl eq_refl (incl_refl _) _ (Sp j sj Lj Bj Hj0)).
-        intros v Hv. apply SE; auto.
+    - intros j sj Lj Bj Hj. assert (Ne : j <> i) by congruence.
+      assert (Hj0 : nth_error (nodes net) j = Some sj).
+      { subst net'. rewrite nth_set_node_other in Hj; auto. }
+      pose proof (ni_nodes NI Lj Bj Hj0) as OK.
+      refine (NodeOK_transfer OK BL (BL : byz_legal net') Bj Hj0 Hj (ni_reach NI) eq_refl eq_refl (incl_refl _) _ _).
+      + intros v Hv. apply SE; auto.
+      + intro m. rewrite (sm_soup (no_sim OK)). split; intros [v [K C]]; exists v; split; auto.
+        * apply SE. apply (known_env v BL Bj Hj0). exact K.
+        * apply (known_env v BL Bj Hj0). apply SE. exact K.
   Qed.
 
   (* ---------------- a Byzantine send ---------------- *)
@@ -356,9 +351,13 @@ Section NetProof.
         * intros r t d k [].
         * reflexivity.
         * intros v Hv. exfalso. exact (@soup_init v Hv).
+        * constructor.
+        * constructor.
+        * exists None. split; [constructor|left; reflexivity].
+        * reflexivity.
   Qed.
 
-  (* ---------------- one event of the network (crash-free part) ---------------- *)
+  (* ---------------- one event of the network ---------------- *)
 
   Lemma legal_ev_k0 net e : legal_event (soup net) e = true -> ev_k0 (nsoup net) e.
   Proof.
@@ -366,34 +365,6 @@ Section NetProof.
     - destruct curh; auto. apply vote_mem_In.
     - intros H c v Hin Hc. rewrite forallb_forall in H. specialize (H _ Hin). cbn in H. subst c. cbn in H.
       apply vote_mem_In; auto.
-  Qed.
-
-  (* a stopped engine ignores everything but a restart *)
-  Lemma step_ev_idle own d e s :
-    status_ s <> Running -> ev_plain e = true -> step_ev n own blocks d e None s = set_outs [] None s.
-  Proof.
-    intros NR Pl. unfold step_ev. destruct e; try discriminate Pl; cbn; destruct (status_ s); try contradiction; reflexivity.
-  Qed.
-
-  Lemma idle_ok i s :
-    Inv (Z.of_nat i) s -> InvD n s -> fuse s = None ->
-    Inv (Z.of_nat i) (set_outs [] None s) /\ InvD n (set_outs [] None s) /\
-    forall E T0 K0 T, Sim n byz i E T0 K0 s T -> Sim n byz i E T0 K0 (set_outs [] None s) T.
-  Proof.
-    intros HI HD F. split; [|split].
-    - destruct HI as [d k c]. constructor; cbn; auto. intros R _. apply Ctl_set_outs. apply c; auto.
-      unfold unblown, blown. rewrite F. reflexivity.
-    - eapply InvD_dsame; [apply ds_set_outs, dsame_refl|auto].
-    - intros E T0 K0 T HS. eapply Sim_ssame; [|exact HS]. constructor; cbn; auto; tauto.
-  Qed.
-
-  Lemma step_ev_restart own d s :
-    status_ s = Down ->
-    step_ev n own blocks d ERestart None s =
-    (let s' := restart n own blocks d (set_outs [] None s) in
-     if blown s' then set_status (match status_ s' with Decided => Decided | _ => Down end) s' else s').
-  Proof.
-    intro H. unfold step_ev. change (status_ (set_outs [] None s)) with (status_ s). rewrite H. reflexivity.
   Qed.
 
   Lemma soup_wf net T v : NetInv net T -> In v (soup net) -> 0 <= v_from v < Z.of_nat n /\ 0 <= v_round v.
@@ -405,152 +376,77 @@ Section NetProof.
       split; [lia|]. apply (sm_sent (no_sim (ni_nodes NI L B A)) _ _ _ _ C).
   Qed.
 
-  Lemma NodeOK_P net T i s : NodeOK net T i s -> P n byz i (env i net) T (nsoup net) s.
+  Lemma NodeOK_P net T i s : NodeOK net T i s -> P n byz blocks i (env i net) T (nsoup net) s.
   Proof. intros [HI HD HS]. constructor; eauto. Qed.
 
-  (* ================================================================== *)
-  (* Stage 1: histories without crashes (every engine is started once)  *)
+  (* fewer than a third of the slots are Byzantine (needed already for the
+     invariant: a restart replays the lock WAL correctly only because the soup
+     has at most one polka per round) *)
+  Hypothesis Hb3 : (3 * nbyz n byz < n)%nat.
 
-  Definition restarts (evs : list nev) : list nat := flat_map ev_restart_of evs.
-
-  (* an engine that may still be started has never run *)
-  Definition fresh_ok (net : netstate) (T : TM.state) (rs : list nat) : Prop :=
-    forall i s, (i < n)%nat -> byz i = false -> nth_error (nodes net) i = Some s ->
-      (s = init /\ TM.lock T i = None) \/ ~ In i rs.
-
-  Lemma fresh_ok_weaken net T l rs : fresh_ok net T (l ++ rs) -> fresh_ok net T rs.
+  (* any event without a crash point inside it: message, timeout, callback,
+     crash with any number of surviving unsynced records, restart, Byzantine send *)
+  Lemma net_step_boundary net T e :
+    NetInv net T -> ev_fuse_none e = true -> exists T', NetInv (net_step n byz blocks net e) T'.
   Proof.
-    intros F i s Li Bi Hs. destruct (F i s Li Bi Hs) as [H|H]; auto. right. intro K. apply H. apply in_or_app; auto.
-  Qed.
-
-  Lemma net_step_nocrash net T e rs :
-    NetInv net T -> fresh_ok net T (ev_restart_of e ++ rs) ->
-    ev_fuse_none e = true -> ev_is_crash e = false ->
-    (forall i, In i (ev_restart_of e) -> ~ In i rs) ->
-    exists T', NetInv (net_step n byz blocks net e) T' /\ fresh_ok (net_step n byz blocks net e) T' rs.
-  Proof.
-    intros NI FO Fz Cr ND. pose proof (fresh_ok_weaken _ _ FO) as FO'.
-    destruct e as [i [[ev fz] d]|v]; cbn [net_step fst snd].
-    - (* an engine event *)
-      destruct fz; [discriminate Fz|].
+    intros NI Fz. destruct e as [i [[ev fz] d]|v]; cbn [net_step fst snd].
+    - destruct fz; [discriminate Fz|].
       destruct (nth_error (nodes net) i) as [s|] eqn:Hs; [|exists T; auto].
       destruct (legal_event (soup net) ev) eqn:Lg; [|exists T; auto].
       assert (Li : (i < n)%nat) by (rewrite <- (ni_len NI); apply nth_error_Some; congruence).
       assert (Li' : (i < length (nodes net))%nat) by (rewrite (ni_len NI); auto).
       destruct (byz i) eqn:Bi.
-      { (* an engine in a Byzantine slot: invisible *)
-        exists T. split.
-        - eapply NetInv_idle; eauto; intro; congruence.
-        - intros j sj Lj Bj Hj. assert (j <> i) by congruence.
-          rewrite nth_set_node_other in Hj; auto. }
-      pose proof (ni_nodes NI Li Bi Hs) as OK. pose proof (NodeOK_P OK) as P0.
+      { exists T. apply NetInv_byz_node; auto. }
+      pose proof (NodeOK_P (ni_nodes NI Li Bi Hs)) as P0.
       unfold node_step. cbn [fst snd].
-      destruct (ev_plain ev) eqn:Pl.
-      + destruct (status_ s) eqn:R.
-        * (* a running engine takes a step *)
-          assert (P' := P_step_ev blocks Li Bi (env_ok i NI) d ev P0 Pl (legal_ev_k0 _ _ Lg)).
-          remember (step_ev n (Z.of_nat i) blocks d ev None s) as s' eqn:Es. clear Es.
-          destruct (NetInv_node_step NI Li Bi Hs P') as [T' [NI' Fr]].
-          exists T'. split; auto. intros j sj Lj Bj Hj. destruct (Nat.eq_dec j i) as [->|Ne].
-          -- right. destruct (FO' i s Li Bi Hs) as [[E0 _]|H0]; auto. subst s. discriminate R.
-          -- rewrite nth_set_node_other in Hj; auto.
-             destruct (FO' j sj Lj Bj Hj) as [[E0 L0]|H0]; auto. left. split; auto. rewrite Fr; auto.
-        * (* stopped *)
-          rewrite step_ev_idle; auto; [|congruence].
-          destruct (@idle_ok i s (no_inv OK) (no_invd OK) (sm_fuse (no_sim OK))) as [I1 [I2 I3]].
-          exists T. split.
-          -- eapply NetInv_idle; eauto. intros _ v. cbn. tauto.
-          -- intros j sj Lj Bj Hj. destruct (Nat.eq_dec j i) as [->|Ne].
-             ++ rewrite nth_set_node_same in Hj; auto. inversion Hj; subst sj.
-                destruct (FO' i s Li Bi Hs) as [[E0 L0]|H0]; auto. left. subst s. split; auto.
-             ++ rewrite nth_set_node_other in Hj; auto.
-        * rewrite step_ev_idle; auto; [|congruence].
-          destruct (@idle_ok i s (no_inv OK) (no_invd OK) (sm_fuse (no_sim OK))) as [I1 [I2 I3]].
-          exists T. split.
-          -- eapply NetInv_idle; eauto. intros _ v. cbn. tauto.
-          -- intros j sj Lj Bj Hj. destruct (Nat.eq_dec j i) as [->|Ne].
-             ++ rewrite nth_set_node_same in Hj; auto. inversion Hj; subst sj.
-                destruct (FO' i s Li Bi Hs) as [[E0 L0]|H0]; auto. subst s. discriminate R.
-             ++ rewrite nth_set_node_other in Hj; auto.
-      + destruct ev; try discriminate Pl; [discriminate Cr|].
-        (* the start of the engine *)
-        cbn [ev_restart_of app] in FO, ND.
-        destruct (FO i s Li Bi Hs) as [[E0 L0]|H0]; [|exfalso; apply H0; left; auto]. subst s.
-        rewrite step_ev_restart; [|reflexivity].
-        change (set_outs [] None init) with init. cbv zeta.
-        assert (P' := P_restart_init blocks Li Bi (env_ok i NI) d (no_sim OK) L0).
-        remember (restart n (Z.of_nat i) blocks d init) as s' eqn:Es. clear Es.
-        unfold blown. rewrite (P_fuse P').
-        destruct (NetInv_node_step NI Li Bi Hs P') as [T' [NI' Fr]].
-        exists T'. split; auto. intros j sj Lj Bj Hj. destruct (Nat.eq_dec j i) as [->|Ne].
-        * right. apply ND. left; auto.
-        * rewrite nth_set_node_other in Hj; auto.
-          destruct (FO j sj Lj Bj Hj) as [[E1 L1]|H1].
-          -- left. split; auto. rewrite Fr; auto.
-          -- right. intro K. apply H1. right; auto.
-    - (* a Byzantine vote *)
-      destruct (legal_byz n byz v) eqn:Lg; [|exists T; auto].
-      destruct (NetInv_byz v NI Lg) as [T' [NI' Fr]]. exists T'. split; auto.
-      intros j sj Lj Bj Hj. cbn in Hj. destruct (FO' j sj Lj Bj Hj) as [[E0 L0]|H0]; auto.
-      left. split; auto. rewrite Fr; auto.
+      assert (P' := P_step_ev_any Li Bi (env_ok i NI) blocks_ok d Hb3 ev P0 (legal_ev_k0 _ _ Lg)).
+      remember (step_ev n (Z.of_nat i) blocks d ev None s) as s' eqn:Es. clear Es.
+      destruct (NetInv_node_step NI Li Bi Hs P') as [T' [NI' _]]. exists T'. exact NI'.
+    - destruct (legal_byz n byz v) eqn:Lg; [|exists T; auto].
+      destruct (NetInv_byz v NI Lg) as [T' [NI' _]]. exists T'. exact NI'.
   Qed.
 
-  Lemma run_net_nocrash evs : forall net T,
-    NetInv net T -> fresh_ok net T (restarts evs) ->
-    forallb ev_fuse_none evs = true -> forallb (fun e => negb (ev_is_crash e)) evs = true ->
-    nodup_nat (restarts evs) = true ->
+  Lemma run_net_boundary evs : forall net T,
+    NetInv net T -> forallb ev_fuse_none evs = true ->
     exists T', NetInv (run_net_from n byz blocks net evs) T'.
   Proof.
-    induction evs as [|e evs IH]; intros net T NI FO Fz Cr ND; cbn [run_net_from fold_left].
+    induction evs as [|e evs IH]; intros net T NI Fz; cbn [run_net_from fold_left].
     - exists T; auto.
-    - cbn in Fz, Cr. apply andb_true_iff in Fz as [Fz1 Fz2]. apply andb_true_iff in Cr as [Cr1 Cr2].
-      apply negb_true_iff in Cr1.
-      unfold restarts in *. cbn [flat_map] in FO, ND.
-      assert (ND' : (forall i, In i (ev_restart_of e) -> ~ In i (flat_map ev_restart_of evs)) /\
-                    nodup_nat (flat_map ev_restart_of evs) = true).
-      { destruct e as [i [[ev fz] d]|v]; cbn [ev_restart_of] in *; try (split; [intros ? []|exact ND]).
-        destruct ev; cbn [app] in *; try (split; [intros ? []|exact ND]).
-        cbn in ND. apply andb_true_iff in ND as [N1 N2]. split; auto.
-        intros j [<-|[]] K. apply negb_true_iff in N1.
-        assert (existsb (Nat.eqb i) (flat_map ev_restart_of evs) = true); [|congruence].
-        apply existsb_exists. exists i. split; auto. apply Nat.eqb_refl. }
-      destruct ND' as [ND1 ND2].
-      destruct (@net_step_nocrash net T e _ NI FO Fz1 Cr1 ND1) as [T' [NI' FO']].
-      apply (IH _ T'); auto.
+    - cbn in Fz. apply andb_true_iff in Fz as [Fz1 Fz2].
+      destruct (@net_step_boundary net T e NI Fz1) as [T' NI']. apply (IH _ T'); auto.
   Qed.
 
-  Lemma no_crash_inv evs : no_crash evs = true -> exists T, NetInv (run_net n byz blocks evs) T.
-  Proof.
-    unfold no_crash. rewrite !andb_true_iff. intros [[A B] C].
-    apply (@run_net_nocrash evs (net_init n) TM.init); auto using NetInv_init.
-    intros i s Li Bi Hs. left. cbn in Hs. apply nth_repeat in Hs. auto.
-  Qed.
+  Lemma boundary_inv evs : boundary_crashes evs = true -> exists T, NetInv (run_net n byz blocks evs) T.
+  Proof. intro B. apply (@run_net_boundary evs (net_init n) TM.init); auto using NetInv_init. Qed.
+
+  Lemma no_crash_boundary evs : no_crash evs = true -> boundary_crashes evs = true.
+  Proof. unfold no_crash, boundary_crashes. rewrite !andb_true_iff. tauto. Qed.
 
   (* ---------------- what the invariant gives ---------------- *)
 
   Lemma inv_agreement net T :
-    NetInv net T -> (3 * nbyz n byz < n)%nat ->
+    NetInv net T ->
     forall i j v w, correct n byz i -> correct n byz j ->
       decided_of net i = Some v -> decided_of net j = Some w -> v = w.
   Proof.
-    intros NI Hb i j v w [Li Bi] [Lj Bj] Di Dj. unfold decided_of in *.
+    intros NI i j v w [Li Bi] [Lj Bj] Di Dj. unfold decided_of in *.
     destruct (nth_error (nodes net) i) as [si|] eqn:Hi; [|discriminate].
     destruct (nth_error (nodes net) j) as [sj|] eqn:Hj; [|discriminate].
     pose proof (sm_dec (no_sim (ni_nodes NI Li Bi Hi)) Di) as Ti.
     pose proof (sm_dec (no_sim (ni_nodes NI Lj Bj Hj)) Dj) as Tj.
-    exact (TP.tm_agreement n byz Hb T i j v w (ni_reach NI) (correct_i n byz i Li Bi) (correct_i n byz j Lj Bj) Ti Tj).
+    exact (TP.tm_agreement n byz Hb3 T i j v w (ni_reach NI) (correct_i n byz i Li Bi) (correct_i n byz j Lj Bj) Ti Tj).
   Qed.
 
   Lemma inv_finalize_needs_quorum net T :
-    NetInv net T -> (3 * nbyz n byz < n)%nat ->
+    NetInv net T ->
     forall i b, correct n byz i -> decided_of net i = Some b ->
       exists r, 0 <= r /\ over23 (count_precommits (soup net) n r b) n = true.
   Proof.
-    intros NI Hb i b [Li Bi] Di. unfold decided_of in *.
+    intros NI i b [Li Bi] Di. unfold decided_of in *.
     destruct (nth_error (nodes net) i) as [si|] eqn:Hi; [|discriminate].
     pose proof (no_sim (ni_nodes NI Li Bi Hi)) as HS.
     pose proof (sm_dec HS Di) as Ti.
-    destruct (TP.tm_decide_needs_quorum n byz Hb T i b (ni_reach NI) Ti) as [r Q].
+    destruct (TP.tm_decide_needs_quorum n byz Hb3 T i b (ni_reach NI) Ti) as [r Q].
     exists (Z.of_N r). split; [lia|].
     unfold TM.qprecommit, TM.quorum in Q.
     change (TM.over23 (TM.countn (fun k => has_vote_of (soup net) k (Z.of_N r) Precommit (Some b)) n) n = true).
@@ -566,18 +462,39 @@ Section NetProof.
     - rewrite H3. apply dec_eqb_refl.
   Qed.
 
-  Theorem agreement_no_crash evs :
-    no_crash evs = true -> (3 * nbyz n byz < n)%nat ->
+  (* agreement for every history whose crashes happen between events *)
+  Theorem agreement_boundary evs :
+    boundary_crashes evs = true ->
     forall i j v w, correct n byz i -> correct n byz j ->
       decided_of (run_net n byz blocks evs) i = Some v ->
       decided_of (run_net n byz blocks evs) j = Some w -> v = w.
-  Proof. intros NC Hb. destruct (@no_crash_inv evs NC) as [T NI]. exact (inv_agreement NI Hb). Qed.
+  Proof. intros B. destruct (@boundary_inv evs B) as [T NI]. exact (inv_agreement NI). Qed.
 
-  Theorem finalize_needs_quorum_no_crash evs :
-    no_crash evs = true -> (3 * nbyz n byz < n)%nat ->
+  Theorem finalize_needs_quorum_boundary evs :
+    boundary_crashes evs = true ->
     forall i b, correct n byz i -> decided_of (run_net n byz blocks evs) i = Some b ->
       exists r, 0 <= r /\ over23 (count_precommits (soup (run_net n byz blocks evs)) n r b) n = true.
-  Proof. intros NC Hb. destruct (@no_crash_inv evs NC) as [T NI]. exact (inv_finalize_needs_quorum NI Hb). Qed.
+  Proof. intros B. destruct (@boundary_inv evs B) as [T NI]. exact (inv_finalize_needs_quorum NI). Qed.
+
+  (* the network refines the protocol: the final state is related to a reachable
+     protocol state whose soup is the image of the network's soup and whose
+     decisions cover the finalized blocks *)
+  Theorem refinement_boundary evs :
+    boundary_crashes evs = true ->
+    exists T, TM.reachable n byz T /\
+      forall i s, correct n byz i -> node_of (run_net n byz blocks evs) i = Some s ->
+        (forall m, In m (TM.soup T) <-> exists v, In v (soup (run_net n byz blocks evs)) /\ conv v = m) /\
+        (status_ s = Running -> TM.lock T i = convlock (lock_of s)) /\
+        (forall b, decided s = Some b -> TM.decided T i = Some b).
+  Proof.
+    intros B. destruct (@boundary_inv evs B) as [T NI]. exists T. split; [apply (ni_reach NI)|].
+    intros i s [Li Bi] Hs. unfold node_of in Hs. pose proof (no_sim (ni_nodes NI Li Bi Hs)) as HS.
+    split; [|split].
+    - intro m. rewrite (sm_soup HS). split; intros [v [K C]]; exists v; split; auto;
+        apply (known_env v (ni_byz NI) Bi Hs); auto.
+    - apply (sm_lock HS).
+    - apply (sm_dec HS).
+  Qed.
 
 End NetProof.
 
